@@ -32,6 +32,9 @@ ASSUMPTIONS = ["participants have pairwise distinct x-only keys (a key and its n
                "the implementation raises otherwise)",
                "k >= 2 for MuSig leaves (MuSigTapScript of a single key raises IndexError)"]
 BUDGET_S = {"quick": 900, "thorough": 3000}
+# 256-bit curve arithmetic is never evaluated inside Coq (DESIGN §3): only the pure functions are self-checked
+VM_SKIP = ("multisig_cmds", "musig_init", "musig_cmds", "nonce_points", "nonce_sums", "compute", "musig_sign",
+           "get_signature", "session", "trms_init", "tree", "degrading")
 
 # ------------------------------------------------------------------ reference
 
@@ -231,6 +234,13 @@ def p_session(parts, msg, root, seed):
     r = random.Random(seed)
     privs = [PrivateKey(p[0]) for p in parts]
     nonces = [(p[1], p[2]) for p in parts]
+    if sum(k[0] for k in nonces) % N_ == 0 or sum(k[1] for k in nonces) % N_ == 0:
+        # stated side condition of the theorem: a nonce sum at infinity; the implementation raises
+        try:
+            run_session(privs, nonces, msg, root)
+        except Exception:
+            return None
+        return "session with a nonce sum at infinity did not raise"
     musig, sig = run_session(privs, nonces, msg, root)
     agg = musig.point
     if enc_point(agg) != list(ref_keyagg([p.point.xonly() for p in privs])):
@@ -497,12 +507,12 @@ def generate(ctx):
         yield ("corr", "compute", [pts, [[], sm[1]], 3, 4, ctx.rbytes(32)])
     # --- full sessions
     for size in (2, 3, 4, 5):
-        for rep in range(ctx.n(2, 20)):
+        for rep in range(ctx.n(2, 20) if size <= 3 else ctx.n(1, 20)):
             pars = [r.randrange(2) for _ in range(size)] if rep else [i % 2 for i in range(size)]
             secrets = key_set(r, size, pars)
             parts = [[s, rand_nonce(r), rand_nonce(r)] for s in secrets]
             msg = ctx.rbytes(32)
-            root = b"" if rep % 2 == 0 else ctx.rbytes(32)
+            root = b"" if (rep + size) % 2 == 0 else ctx.rbytes(32)
             agg = MuSigTapScript([point_of(s) for s in secrets]).point
             ctx.label(f"session/size={size}/root={'yes' if root else 'no'}/aggparity={agg.parity}")
             yield ("corr", "session", [parts, msg, root])
